@@ -285,5 +285,16 @@ package age
 //@ func (*X25519Identity).Unwrap(i, stanzas) (fk, err)
 //@   requires len(i.secretKey) == 32 && len(i.ourPublicKey) == 32 && (forall j in 0..len(stanzas) :: stanzas[j] != nil)
 //@   ensures#nil err != nil ==> fk == nil                                                                                           [C01 C04]
+//@   ensures#foreign (forall j in 0..len(stanzas) :: stanzas[j].Type != "X25519") ==> err == ErrIncorrectIdentity                   [C01 C04]
 //@   ensures#frame i.secretKey == old(i.secretKey) && i.ourPublicKey == old(i.ourPublicKey)                                         [C20]
 //@   modifies nothing
+
+//@ func NewScryptRecipient(password) (r, err)
+//@   ensures#iff err == nil <==> len(password) > 0                                                                                  [C04 C10]
+//@   ensures#pw err == nil ==> r != nil && bytes(r.password) == password && r.workFactor == 18                                      [C01 C04 C05 C10]
+//@   ensures#nil err != nil ==> r == nil                                                                                            [C14]
+
+//@ func NewScryptIdentity(password) (i, err)
+//@   ensures#iff err == nil <==> len(password) > 0                                                                                  [C04 C10]
+//@   ensures#pw err == nil ==> i != nil && bytes(i.password) == password && i.maxWorkFactor == 22                                   [C01 C04 C10]
+//@   ensures#nil err != nil ==> i == nil                                                                                            [C14]
